@@ -17,9 +17,11 @@ func init() {
 			"(R3) GetNextBlock bounds the decoded uint64 block size against the held length in the unsigned domain before narrowing it, GetNextBlockAsContainer hands it to a callee that rejects negative sizes with an error (decision table); " +
 			"(R4) GetNextN8/16/32/64 peek 2/3/5/10 bytes, decode with the matching width and consume exactly the decoder's count, only on success; " +
 			"(R5) the consuming getters consume only on their success path (a failed Get leaves the data in place); " +
-			"(R6) whenever the offset moves past a compartment that compartment is cleared (the offset-rewind in checkOffset and AppendContainer rely on it). " +
+			"(R6) whenever the offset moves past a compartment that compartment is cleared (the offset-rewind in checkOffset and AppendContainer rely on it); " +
+			"(R7) every constant-bound index/slice in the container operations and their repo callees is justified by a dominating length test or a preceding store of a fresh slice of that length (one named exception: renewCompartments, by the offset invariant); " +
+			"(R8) the width decision tables of varint.Unpack16/32/64 that the number and length-prefix getters rely on to reject oversized values (shared with C10-R2). " +
 			"NOT decided: byte-queue equivalence over arbitrary operation sequences.",
-		Rules: []ruleFn{c16R1, c16R2, c16R3, c16R4, c16R5, c16R6},
+		Rules: []ruleFn{c16R1, c16R2, c16R3, c16R4, c16R5, c16R6, c16R7, func(c *Ctx, r *Report) { unpackWidthRule(c, r, "C16-R8") }},
 	})
 }
 
@@ -344,4 +346,11 @@ func c16R6(c *Ctx, r *Report) {
 	if n < 2 {
 		r.Undecided(rule, "instance-floor", fmt.Sprintf("found %d offset advances (skip, WriteToSlice expected)", n))
 	}
+}
+
+func c16R7(c *Ctx, r *Report) {
+	const rule = "C16-R7"
+	r.SetFloor(rule, 1)
+	boundsRule(c, r, rule, "a container operation",
+		"container.(*Container).Prepend", "container.(*Container).Append", "container.(*Container).PrependNumber", "container.(*Container).AppendNumber", "container.(*Container).PrependInt", "container.(*Container).AppendInt", "container.(*Container).AppendAsBlock", "container.(*Container).PrependAsBlock", "container.(*Container).AppendContainer", "container.(*Container).AppendContainerAsBlock", "container.(*Container).HoldsData", "container.(*Container).Length", "container.(*Container).Replace", "container.(*Container).CompileData", "container.(*Container).Get", "container.(*Container).GetAll", "container.(*Container).GetAsContainer", "container.(*Container).GetMax", "container.(*Container).WriteToSlice", "container.(*Container).WriteAllTo", "container.(*Container).PrependLength", "container.(*Container).Peek", "container.(*Container).PeekContainer", "container.(*Container).GetNextBlock", "container.(*Container).GetNextBlockAsContainer", "container.(*Container).GetNextN8", "container.(*Container).GetNextN16", "container.(*Container).GetNextN32", "container.(*Container).GetNextN64", "container.(*Container).MarshalJSON", "container.(*Container).UnmarshalJSON", "container.New", "container.NewContainer")
 }
